@@ -18,6 +18,13 @@
 (* request handle 100 + r.  Request ids are 1, 2, ... in the order in      *)
 (* which the transport takes requests from the queue (the real ids are     *)
 (* 1000 + id).  The peer numbers the chunks it sends 1, 2, ...             *)
+(*                                                                         *)
+(* Every request has a timeout class, "short" or "long" (the harness uses   *)
+(* 1000 s and 3000 s, far more than a behaviour lasts): the deadline of a   *)
+(* short request is before that of every long one, and within a class the  *)
+(* deadlines follow the order of submission.  A Poll record also tells for *)
+(* which pending request the transport's timer is then armed (`armed',     *)
+(* what next_timeout returns to wait_for_outgoing_message).                *)
 (***************************************************************************)
 EXTENDS Integers, Sequences, FiniteSets, SequencesExt, TLC
 
@@ -25,16 +32,17 @@ CONSTANTS
   QueueCap,        \* capacity of the request queue between Request::send and the transport
   MaxInflight,     \* TransportState::max_inflight
   MaxPending,      \* TransportState::max_pending_incoming (0 = no limit)
-  MutKeepTimedOut  \* mutant (never the design): a timed-out request is answered but stays in the pending map
+  MutKeepTimedOut, \* mutant (never the design): a timed-out request is answered but stays in the pending map
+  MutArmLatest     \* mutant (never the design): the timer is armed for the latest instead of the earliest pending deadline
 
 UnknownId == 99
 Handle(r) == 100 + r
 
 VARIABLES
-  subm,      \* submitted requests: r -> [cb]   (cb: the request expects a response)
+  subm,      \* submitted requests: r -> [cb, cls]   (cb: the request expects a response; cls: timeout class)
   blocked,   \* requests whose send waits for room in the queue, oldest first
   queue,     \* the request queue, oldest first
-  pending,   \* message_states: id -> [r, chunks (sequence numbers stored), expired]
+  pending,   \* message_states: id -> [r, chunks (sequence numbers stored), expired, dl (abstract deadline)]
   idOf,      \* r -> request id (0 = not taken yet)
   nextId,    \* SendBuffer::last_request_id
   lastRecv,  \* TransportState::last_received_sequence_number
@@ -47,6 +55,16 @@ vars == <<subm, blocked, queue, pending, idOf, nextId, lastRecv, nextSeq, closed
 
 -----------------------------------------------------------------------------
 Res(r, k, h) == [r |-> r, k |-> k, h |-> h]
+
+\* abstract deadlines: <<class rank, request number>>, ordered lexicographically
+Deadline(r, cls) == <<IF cls = "short" THEN 0 ELSE 1, r>>
+DlLe(a, b) == a[1] < b[1] \/ (a[1] = b[1] /\ a[2] <= b[2])
+\* TransportState::next_timeout: the pending request, not yet due, with the earliest deadline (0 = none)
+Armed(p) ==
+  LET live == {id \in DOMAIN p : ~p[id].expired} IN
+  IF live = {} THEN 0
+  ELSE IF MutArmLatest THEN CHOOSE id \in live : \A x \in live : DlLe(p[x].dl, p[id].dl)
+  ELSE CHOOSE id \in live : \A x \in live : DlLe(p[id].dl, p[x].dl)
 
 \* results sorted by request number (the harness polls the request futures in that order)
 SortOut(S) == SetToSortSeq(S, LAMBDA a, b : a.r < b.r)
@@ -83,9 +101,9 @@ Init ==
 
 -----------------------------------------------------------------------------
 \* Request::send (cb) / Request::send_no_response (~cb) of request r
-Submit(r, cb) ==
+Submit(r, cb, cls) ==
   /\ r \notin DOMAIN subm
-  /\ subm' = [x \in DOMAIN subm \cup {r} |-> IF x = r THEN [cb |-> cb] ELSE subm[x]]
+  /\ subm' = [x \in DOMAIN subm \cup {r} |-> IF x = r THEN [cb |-> cb, cls |-> cls] ELSE subm[x]]
   /\ idOf' = [x \in DOMAIN idOf \cup {r} |-> IF x = r THEN 0 ELSE idOf[x]]
   /\ LET outs == IF closed # "none" THEN <<Res(r, "BadConnectionClosed", 0)>>        \* the queue is closed
                  ELSE IF Len(queue) < QueueCap /\ ~cb THEN <<Res(r, "sent", 0)>>
@@ -95,8 +113,8 @@ Submit(r, cb) ==
            ELSE IF Len(queue) < QueueCap THEN queue' = Append(queue, r) /\ UNCHANGED blocked
            ELSE blocked' = Append(blocked, r) /\ UNCHANGED queue
         /\ UNCHANGED <<pending, nextId, lastRecv, nextSeq, closed>>
-        /\ evt' = [ev |-> "Submit", r |-> r, cb |-> cb, h |-> Handle(r), id |-> 0, kind |-> "", hit |-> FALSE,
-                   took |-> 0, out |-> outs, closed |-> "none", st |-> P]
+        /\ evt' = [ev |-> "Submit", r |-> r, cb |-> cb, cls |-> cls, h |-> Handle(r), id |-> 0, kind |-> "", hit |-> FALSE,
+                   took |-> 0, armed |-> 0, out |-> outs, closed |-> "none", st |-> P]
 
 \* one call of TransportState::wait_for_outgoing_message: time out what is due, then take the next
 \* request from the queue if fewer than MaxInflight requests are pending
@@ -108,7 +126,7 @@ Poll ==
          r    == Head(queue)
          id   == nextId + 1
          p2   == IF take /\ subm[r].cb
-                 THEN [x \in DOMAIN p1 \cup {id} |-> IF x = id THEN [r |-> r, chunks |-> <<>>, expired |-> FALSE] ELSE p1[x]]
+                 THEN [x \in DOMAIN p1 \cup {id} |-> IF x = id THEN [r |-> r, chunks |-> <<>>, expired |-> FALSE, dl |-> Deadline(r, subm[r].cls)] ELSE p1[x]]
                  ELSE p1
          s    == IF take THEN Settle(blocked, Tail(queue), {}) ELSE [bl |-> blocked, qu |-> queue, sent |-> {}]
          outs == SortOut({Res(pending[id2].r, "BadTimeout", 0) : id2 \in due} \cup s.sent)
@@ -119,8 +137,8 @@ Poll ==
         /\ idOf' = IF take THEN [idOf EXCEPT ![r] = id] ELSE idOf
         /\ comp' = Deliver(comp, outs)
         /\ UNCHANGED <<subm, lastRecv, nextSeq, closed>>
-        /\ evt' = [ev |-> "Poll", r |-> 0, cb |-> FALSE, h |-> 0, id |-> IF take THEN id ELSE 0, kind |-> "", hit |-> FALSE,
-                   took |-> IF take THEN r ELSE 0, out |-> outs, closed |-> "none", st |-> P]
+        /\ evt' = [ev |-> "Poll", r |-> 0, cb |-> FALSE, cls |-> "", h |-> 0, id |-> IF take THEN id ELSE 0, kind |-> "", hit |-> FALSE,
+                   took |-> IF take THEN r ELSE 0, armed |-> Armed(p2), out |-> outs, closed |-> "none", st |-> P]
 
 \* the deadline of pending request id passes
 Expire(id) ==
@@ -129,8 +147,8 @@ Expire(id) ==
   /\ ~pending[id].expired
   /\ pending' = [pending EXCEPT ![id].expired = TRUE]
   /\ UNCHANGED <<subm, blocked, queue, idOf, nextId, lastRecv, nextSeq, closed, comp>>
-  /\ evt' = [ev |-> "Expire", r |-> 0, cb |-> FALSE, h |-> 0, id |-> id, kind |-> "", hit |-> TRUE,
-             took |-> 0, out |-> <<>>, closed |-> "none", st |-> P]
+  /\ evt' = [ev |-> "Expire", r |-> 0, cb |-> FALSE, cls |-> "", h |-> 0, id |-> id, kind |-> "", hit |-> TRUE,
+             took |-> 0, armed |-> 0, out |-> <<>>, closed |-> "none", st |-> P]
 
 \* TransportState::close: every pending and every queued request ends with the close status
 \* (BadConnectionClosed for a good status); senders still waiting for room see the closed queue
@@ -149,10 +167,11 @@ Close(status) ==
   /\ UNCHANGED <<subm, idOf, nextId, lastRecv, nextSeq>>
   /\ LET outs == SortOut(CloseOuts(pending, queue, blocked, status))
      IN /\ comp' = Deliver(comp, outs)
-        /\ evt' = [ev |-> "Close", r |-> 0, cb |-> FALSE, h |-> 0, id |-> 0, kind |-> status, hit |-> FALSE,
-                   took |-> 0, out |-> outs, closed |-> status, st |-> P]
+        /\ evt' = [ev |-> "Close", r |-> 0, cb |-> FALSE, cls |-> "", h |-> 0, id |-> 0, kind |-> status, hit |-> FALSE,
+                   took |-> 0, armed |-> 0, out |-> outs, closed |-> status, st |-> P]
 
-\* merge_chunks: the stored chunks sorted by sequence number, cut at the first gap
+\* the chunks of a message are validated in the order of arrival (merge_chunks does not repair anything):
+\* Run = the longest prefix with consecutive sequence numbers
 RECURSIVE Run(_)
 Run(s) == IF Len(s) <= 1 THEN s
           ELSE LET f == Run(Front(s)) IN IF Len(f) = Len(s) - 1 /\ s[Len(s)] = s[Len(s) - 1] + 1 THEN s ELSE f
@@ -163,7 +182,7 @@ Chunk(id, kind) ==
   /\ closed = "none"
   /\ nextSeq' = nextSeq + 1
   /\ LET seq  == nextSeq
-         base == [ev |-> "Chunk", r |-> 0, cb |-> FALSE, h |-> IF id \in 1..nextId THEN Handle(CHOOSE r \in DOMAIN idOf : idOf[r] = id) ELSE 999,
+         base == [ev |-> "Chunk", r |-> 0, cb |-> FALSE, cls |-> "", armed |-> 0, h |-> IF id \in 1..nextId THEN Handle(CHOOSE r \in DOMAIN idOf : idOf[r] = id) ELSE 999,
                   id |-> id, kind |-> kind, hit |-> id \in DOMAIN pending, took |-> 0]
      IN
      IF id \notin DOMAIN pending
@@ -192,7 +211,7 @@ Chunk(id, kind) ==
        [] kind = "final" ->
             LET all == Append(ms.chunks, seq)
                 err == IF all[1] < lastRecv + 1 THEN "BadSequenceNumberInvalid"     \* Chunker::validate_chunks
-                       ELSE IF Len(Run(all)) < Len(all) THEN "BadDecodingError"     \* Chunker::decode: last chunk kept is not final
+                       ELSE IF Len(Run(all)) < Len(all) THEN "BadSecurityChecksFailed"  \* ... : a gap in the sequence numbers
                        ELSE "none"
             IN IF err = "none"
                THEN LET outs == <<Res(ms.r, "resp", base.h)>>
@@ -203,7 +222,7 @@ Chunk(id, kind) ==
                     LET outs == SortOut({Res(ms.r, "BadConnectionClosed", 0)} \cup CloseOuts(rest, queue, blocked, err))
                     IN /\ pending' = <<>> /\ queue' = <<>> /\ blocked' = <<>> /\ closed' = err
                        /\ comp' = Deliver(comp, outs)
-                       /\ lastRecv' = IF err = "BadDecodingError" THEN all[1] + Len(Run(all)) - 1 ELSE lastRecv
+                       /\ lastRecv' = lastRecv
                        /\ UNCHANGED <<subm, idOf, nextId>>
                        /\ evt' = base @@ [out |-> outs, closed |-> err, st |-> P]
 
